@@ -328,15 +328,33 @@ func goR011(c *Ctx, r *Repo) {
 		c.Fail("R01.1", "populateImportsHelper|no-type-switch", r.Pos(fd.Pos()), "no type switch over the type constructors")
 		return
 	}
+	// the arm that a value of each constructor reaches: the first clause, in source order, that lists the
+	// constructor itself or an interface the constructor implements (an arm such as
+	// `case interface{ Elem() types.Type }` takes every constructor with that method that no earlier arm took)
 	cases := map[string]*ast.CaseClause{}
-	for _, s := range ts.Body.List {
-		cc := s.(*ast.CaseClause)
-		for _, e := range cc.List {
-			if t := info.TypeOf(e); t != nil {
+	for _, ct := range ctors {
+		tn, _ := gt.Types.Scope().Lookup(ct).(*types.TypeName)
+		if tn == nil {
+			continue
+		}
+		ptr := types.NewPointer(tn.Type())
+	arms:
+		for _, s := range ts.Body.List {
+			cc := s.(*ast.CaseClause)
+			for _, e := range cc.List {
+				t := info.TypeOf(e)
+				if t == nil {
+					continue
+				}
 				if pt, ok := t.(*types.Pointer); ok {
-					if n, ok := pt.Elem().(*types.Named); ok && n.Obj().Pkg() != nil && n.Obj().Pkg().Path() == "go/types" {
-						cases[n.Obj().Name()] = cc
+					if n, ok := pt.Elem().(*types.Named); ok && n.Obj().Pkg() != nil && n.Obj().Pkg().Path() == "go/types" && n.Obj().Name() == ct {
+						cases[ct] = cc
+						break arms
 					}
+				}
+				if it, ok := t.Underlying().(*types.Interface); ok && !it.Empty() && types.Implements(ptr, it) {
+					cases[ct] = cc
+					break arms
 				}
 			}
 		}
@@ -357,6 +375,8 @@ func goR011(c *Ctx, r *Repo) {
 		})
 		return out
 	}
+	recDepth := 0
+	var recursiveArgsRef func(body ast.Node) []string
 	recursiveArgs := func(body ast.Node) []string { // canonical strings of the type argument of each recursive call
 		defs := map[string]string{} // local := expr (single definition)
 		ast.Inspect(body, func(n ast.Node) bool {
@@ -373,7 +393,8 @@ func goR011(c *Ctx, r *Repo) {
 		})
 		var out []string
 		for _, call := range callsIn(body) {
-			if fn := calleeFunc(info, call); fn != nil && fn == self && len(call.Args) >= 2 {
+			fn := calleeFunc(info, call)
+			if fn != nil && fn == self && len(call.Args) >= 2 {
 				s := types.ExprString(call.Args[1])
 				for name, def := range defs {
 					if _, isLoopVar := map[string]bool{"i": true, "j": true}[name]; isLoopVar || def == "0" {
@@ -382,10 +403,37 @@ func goR011(c *Ctx, r *Repo) {
 					s = regexp.MustCompile(`\b`+regexp.QuoteMeta(name)+`\b`).ReplaceAllString(s, def)
 				}
 				out = append(out, s)
+				continue
 			}
+			// a helper of the package that feeds parts of its argument into the recursion (the variables of a
+			// tuple, say): what it feeds, with its parameters replaced by the arguments of this call
+			if fn == nil || fn == self || recDepth > 0 {
+				continue
+			}
+			h := pkgFuncs(tp)[fn]
+			if h == nil || h.Body == nil || helper != nil && h == helper {
+				continue
+			}
+			recDepth++
+			inner := recursiveArgsRef(h.Body)
+			recDepth--
+			i := 0
+			for _, f := range h.Type.Params.List {
+				for _, nm := range f.Names {
+					if i < len(call.Args) {
+						arg := types.ExprString(call.Args[i])
+						for k := range inner {
+							inner[k] = regexp.MustCompile(`\b`+regexp.QuoteMeta(nm.Name)+`\b`).ReplaceAllString(inner[k], arg)
+						}
+					}
+					i++
+				}
+			}
+			out = append(out, inner...)
 		}
 		return out
 	}
+	recursiveArgsRef = recursiveArgs
 	addImportArgs := func(body ast.Node) []string {
 		var out []string
 		for _, call := range callsIn(body) {
